@@ -133,23 +133,38 @@ pub fn guard<R>(f: impl FnOnce() -> R) -> Result<R, String> {
     }
 }
 
-/// a subscriber at TRACE level writing to a sink: every #[instrument] field, ret/err formatter
-/// and event argument of the library is evaluated when a case runs under it
-pub fn trace_dispatch() -> &'static tracing::Dispatch {
-    static D: std::sync::OnceLock<tracing::Dispatch> = std::sync::OnceLock::new();
-    D.get_or_init(|| {
-        let sub = tracing_subscriber::fmt().with_max_level(tracing::Level::TRACE).with_writer(std::io::sink).finish();
-        tracing::Dispatch::new(sub)
-    })
+thread_local! {
+    static TRACE_ON: std::cell::Cell<bool> = const { std::cell::Cell::new(false) };
 }
 
-/// run `f` with or without the TRACE subscriber installed for this thread
+/// Installs, once per process, a global TRACE-level subscriber that formats every event and span
+/// into a sink, behind a filter that is switched per thread. Scoped dispatchers
+/// (`with_default`) are not used: tracing caches per-callsite interest process-wide, and with
+/// one scoped dispatcher a callsite first reached on a thread without it stays disabled for every
+/// thread (observed: TRACE-only code was never entered when 16 workers mixed both modes).
+pub fn install_trace_subscriber() {
+    static ONCE: std::sync::Once = std::sync::Once::new();
+    ONCE.call_once(|| {
+        use tracing_subscriber::prelude::*;
+        let layer = tracing_subscriber::fmt::layer()
+            .with_writer(std::io::sink)
+            .with_filter(tracing_subscriber::filter::dynamic_filter_fn(|_meta, _cx| TRACE_ON.with(|f| f.get())));
+        let _ = tracing::subscriber::set_global_default(tracing_subscriber::registry().with(layer));
+    });
+}
+
+/// run `f` with the TRACE subscriber switched on or off for this thread: when on, every
+/// #[instrument] field, ret/err formatter and event argument of the library is evaluated
 pub fn maybe_traced<R>(traced: bool, f: impl FnOnce() -> R) -> R {
-    if traced {
-        tracing::dispatcher::with_default(trace_dispatch(), f)
-    } else {
-        f()
+    install_trace_subscriber();
+    struct Restore(bool);
+    impl Drop for Restore {
+        fn drop(&mut self) {
+            TRACE_ON.with(|f| f.set(self.0));
+        }
     }
+    let _restore = Restore(TRACE_ON.with(|f| f.replace(traced)));
+    f()
 }
 
 /// one case in eight of every generated or enumerated check runs under the TRACE subscriber: what
